@@ -399,7 +399,12 @@ func plantFailure(T *kernel.Tape, s *Stmt, cur []sql.Row) {
 				continue
 			}
 			if c.Kind == KInt && c.Max < 1<<40 {
-				s.Rows[r][pos(ci)] = Expr{Kind: "const", C: c.Max + 1}
+				// just above the maximum or just below the minimum
+				v := c.Max + 1
+				if T.Bool(1, 2) {
+					v = c.Min - 1
+				}
+				s.Rows[r][pos(ci)] = Expr{Kind: "const", C: v}
 				return
 			}
 			if c.Kind == KStr {
